@@ -15,7 +15,7 @@ ID = "C03"
 LEVEL = "exploration"
 ENGINE = "simhist"
 TIERS = {
-    "quick": {"runs": 200000, "budget_s": 70, "chunk": 500},
+    "quick": {"runs": 150000, "budget_s": 70, "chunk": 500},
     "thorough": {"runs": 1200000, "budget_s": 1500, "chunk": 600},
 }
 KINDS = ["copy", "set_origin", "set_sampling", "set_units", "set_name", "set_array", "pad", "crop",
@@ -376,14 +376,33 @@ def run(plan):
             pass  # views are allowed; only bit-identity of the source is required
         invariants(r_copy, f"{opname}:copy")
         invariants(twin, f"{opname}:inplace")
+        keep(ds, tag[0])
         return r_copy, twin
 
     ds = None
+    kept_src = []   # earlier sources whose results the history moved on to: they must never move again
+
+    def recheck_kept():
+        for q, (obj, sn, born) in enumerate(list(kept_src)):
+            d = snap_diff(sn, snap(obj))
+            if d:
+                viol("source_modified_later", f"a dataset that was the source of {born} changed "
+                     f"afterwards: {d}", f"source_modified_later:{born.split(':')[1]}:{','.join(d)}")
+                kept_src.pop(q)
+                return
+
+    def keep(obj, born):
+        kept_src.append((obj, snap(obj), born))
+        if len(kept_src) > 3:
+            kept_src.pop(0)
+
     try:
         for n_op, op in enumerate(plan["ops"]):
             k = op["op"]
             kinds.append(k)
             tag[0] = f"op#{n_op}:{k}"
+            if kept_src:
+                recheck_kept()
             if k == "create":
                 cls = _D[op["cls"]]
                 arr = _mkarray(tuple(op["shape"]), op["dtype"], op["fill"])
@@ -448,6 +467,7 @@ def run(plan):
                          f"source_modified:copy:{','.join(d)}")
                 invariants(c, "copy")
                 if op["rebind"]:
+                    keep(ds, tag[0])
                     ds = ds.copy()
             elif k in ("set_origin", "set_sampling"):
                 vals = op["vals"][:nd] if nd <= 5 else op["vals"]
@@ -651,6 +671,7 @@ def run(plan):
                     viol("getitem_class", f"ds[{index!r}]: {type(ds).__name__}(ndim {nd}) -> "
                          f"{type(r).__name__}(ndim {want_arr.ndim}), want {wcls}", "getitem_class")
                 if op["rebind"]:
+                    keep(ds, tag[0])
                     ds = r
                     n_mut[0] += 1
             elif k == "rejected":
@@ -659,12 +680,16 @@ def run(plan):
                 x = op["x"]
                 exc = None
                 try:
+                    def form(vals):
+                        f = x[1] % 3
+                        return list(vals) if f == 0 else tuple(vals) if f == 1 else np.asarray(vals)
+
                     if what == "origin_len":
-                        ds.origin = [0.0] * (nd + 1 + x[0] % 2)
+                        ds.origin = form([0.0] * (nd + 1 + x[0] % 2))
                     elif what == "sampling_len":
-                        ds.sampling = (1.0,) * (nd - 1) if nd > 1 else (1.0, 2.0)
+                        ds.sampling = form([1.0] * (nd - 1) if nd > 1 else [1.0, 2.0])
                     elif what == "units_len":
-                        ds.units = ["a"] * (nd + 1)
+                        ds.units = (["a"] * (nd + 1)) if x[1] % 2 else tuple(["a"] * (nd - 1 if nd > 1 else 2))
                     elif what == "origin_type":
                         ds.origin = ["a"] * nd if x[0] % 2 else {"a": 1}
                     elif what == "units_type":
